@@ -35,6 +35,18 @@ def committed : Form → UInt32 → Nat → Field → Bool
 def degenerate (ht : UInt32) (idx : Nat) (c : Ctx) : Bool :=
   isSingle ht && decide (idx ≥ c.tx.outs.length)
 
+/-- the annex of a taproot witness: the last of at least two elements if it starts with 0x50 -/
+def annexOf (w : List Bytes) : Option Bytes :=
+  if w.length < 2 then none else
+  match w.getLast? with
+  | some a => if a.head? == some 0x50 then some a else none
+  | none => none
+
+def ownAnnex (idx : Nat) (c : Ctx) : Option Bytes :=
+  match c.tx.ins[idx]? with
+  | some i => annexOf i.witness
+  | none => none
+
 /-- must the signature made over `orig` (hash type `ht`, input `idx`) verify over `mutd`? -/
 def stillVerifies (form : Form) (ht : UInt32) (idx : Nat) (orig mutd : Ctx) : Bool :=
   let byFields := (diffFields orig mutd).all (fun f => !committed form ht idx f)
@@ -43,7 +55,8 @@ def stillVerifies (form : Form) (ht : UInt32) (idx : Nat) (orig mutd : Ctx) : Bo
     if degenerate ht idx orig && degenerate ht idx mutd then true
     else if degenerate ht idx orig != degenerate ht idx mutd then false
     else byFields
-  | _ => byFields
+  | .tap => byFields && ownAnnex idx orig == ownAnnex idx mutd   -- the annex is committed (BIP341)
+  | .wit => byFields
 
 /-- does the helper for this form return an error (only the taproot digest can fail) -/
 def helperErrs (form : Form) (ht : UInt32) (idx nOuts : Nat) : Bool :=
